@@ -12,7 +12,7 @@
 
 //! Restore from the archive to the filesystem.
 
-use std::collections::HashMap;
+use std::collections::{HashMap, HashSet};
 use std::fs::{File, create_dir_all};
 use std::io::{self, Write};
 use std::path::{Path, PathBuf};
@@ -99,8 +99,23 @@ pub async fn restore(
         monitor.clone(),
     );
     let mut deferrals = Vec::new();
+    // Symlinks restored so far. An index stitched together from an interrupted backup
+    // and an older one can list a symlink and, from the older band, entries inside
+    // what used to be a directory of the same name; writing those would follow the
+    // link, potentially out of the destination.
+    let mut restored_symlinks: HashSet<String> = HashSet::new();
     while let Some(entry) = stitch.next().await {
         task.set_name(format!("Restore {}", entry.apath));
+        if let Some(link) = symlink_ancestor(&restored_symlinks, &entry.apath) {
+            monitor.error(Error::InvalidMetadata {
+                details: format!(
+                    "Not restoring {:?} because {:?} is a symlink in this version",
+                    entry.apath(),
+                    link
+                ),
+            });
+            continue;
+        }
         let path = destination.join(&entry.apath[1..]);
         match entry.kind() {
             Kind::Dir => {
@@ -137,6 +152,7 @@ pub async fn restore(
                     monitor.error(err);
                     continue;
                 }
+                restored_symlinks.insert(entry.apath.to_string());
             }
             Kind::Unknown => {
                 monitor.error(Error::InvalidMetadata {
@@ -151,6 +167,24 @@ pub async fn restore(
     }
     apply_deferrals(&deferrals, monitor.clone())?;
     Ok(())
+}
+
+/// If any proper ancestor of `apath` is in `symlinks`, return it.
+fn symlink_ancestor<'a>(symlinks: &'a HashSet<String>, apath: &Apath) -> Option<&'a String> {
+    if symlinks.is_empty() {
+        return None;
+    }
+    let mut parent: &str = apath;
+    while let Some(pos) = parent.rfind('/') {
+        if pos == 0 {
+            break;
+        }
+        parent = &parent[..pos];
+        if let Some(link) = symlinks.get(parent) {
+            return Some(link);
+        }
+    }
+    None
 }
 
 fn restore_dir(apath: &Apath, restore_path: &Path, options: &RestoreOptions) -> io::Result<()> {
